@@ -3,6 +3,7 @@ C05 — everything the compressor emits is a conformant, truthful frame.
 Facts about the conformance predicate itself (what `Conform.checkFrame = []` guarantees per sequence).
 -/
 import ZstdVerif.Model.Conform
+import ZstdVerif.Lemmas.HeaderW
 namespace ZstdVerif.Props.C05
 open ZstdVerif ZstdVerif.Conform
 
@@ -24,6 +25,32 @@ theorem window_enforced (w d pos be off : Nat) (h : offsetOk w d pos be off = tr
 theorem no_dict_offset_in_content (w pos be off : Nat) (h : offsetOk w 0 pos be off = true) : off ≤ pos := by
   obtain ⟨_, h2, _⟩ := offsetOk_sound w 0 pos be off h
   omega
+
+
+/-- **header_roundtrip** (truthful header): for every accepted argument tuple of ZSTD_writeFrameHeader - window log 10..31, any
+pledged size below 2^64, any 32-bit dictionary ID, every combination of the content-size / no-dictID / checksum flags, with or
+without magic number - the decoder-side header parser applied to the bytes the writer model emits, followed by ANY bytes, succeeds,
+consumes exactly the header, and reports: the pledged size as frame content size (iff the content-size flag is on), the window
+(the pledged size for single-segment frames, 2^windowLog otherwise), the dictionary ID (0 iff suppressed), the checksum flag.
+The writer model is tied to ZSTD_writeFrameHeader function-level on every run (tools/props/c05.py: tie_header). -/
+theorem header_roundtrip (a : HeaderW.HArgs) (ha : a.wf) (rest : List UInt8) :
+    ∃ hd, Frame.getHeader (ByteArray.mk (HeaderW.writeHeader a ++ rest).toArray) 0 ((HeaderW.writeHeader a ++ rest).length) a.magicless = .ok hd ∧
+      hd.headerSize = (HeaderW.writeHeader a).length ∧
+      hd.fcs = (if a.contentSizeFlag then some a.pledged else none) ∧
+      hd.windowSize = (if HeaderW.single a then a.pledged else 2 ^ a.windowLog) ∧
+      hd.dictID = (if a.noDictID then 0 else a.dictID) ∧ hd.checksum = a.checksum ∧ hd.singleSegment = HeaderW.single a := by
+  rcases a with ⟨wl, pl, cs, did, nd, ck, ml⟩
+  obtain ⟨h1, h2, h3, h4⟩ := ha
+  exact HeaderW.header_roundtrip wl pl did cs nd ck ml rest h1 h2 (by simpa using h3) (by simpa using h4)
+
+/-- a single-segment frame announces a window equal to its content size, and only when that size fits the requested window -/
+theorem single_segment_window (a : HeaderW.HArgs) (hs : HeaderW.single a = true) : a.contentSizeFlag = true ∧ a.pledged ≤ 2 ^ a.windowLog := by
+  unfold HeaderW.single at hs
+  simp only [Bool.and_eq_true, decide_eq_true_eq] at hs
+  exact ⟨hs.1, hs.2⟩
+
+example : (⟨17, 100000, true, 0x12345, false, true, false⟩ : HeaderW.HArgs).wf := by
+  unfold HeaderW.HArgs.wf; decide
 
 example : offsetOk 1024 0 5000 6000 1024 = true ∧ offsetOk 1024 0 5000 6000 1025 = false := by decide
 
